@@ -4,8 +4,9 @@ from __future__ import annotations
 import ast
 
 from ..core import Ctx
-from ..match import arg, call_name, calls, facts_at, local_defs, mentions, resolve, single_def, stores
-from ..model import AnalysisError, FuncInfo, ancestors, chain, const_value, enclosing_stmt, norm, parent, strip_cast, walk_no_nested
+from ..cfg import call_may_raise
+from ..match import _atoms_with_polarity, arg, call_name, calls, fact_of, facts_at, local_defs, loop_facts, resolve, single_def, stores
+from ..model import AnalysisError, FuncInfo, ancestors, chain, const_value, enclosing_stmt, head, norm, parent, strip_cast, walk_no_nested
 
 LEVEL = "other"
 EXPLANATION = (
@@ -14,13 +15,169 @@ EXPLANATION = (
     "same node; generate_token and check_token hash the same pre-image, secrets live in a deque(maxlen=2) appended only "
     "by token_maintenance at a 300 s interval (validity <= TOKEN_EXPIRATION_TIME); unserialize_value reports a signer "
     "only under a valid signature over value[:-L] with the carried key; lookups report max(version) per signer; "
-    "Storage.put replaces only with version >= old; Storage.clean examines every value (no early exit); store-peer "
-    "requires the token and target == peer.mid. Interleavings with clock advances are not explored."
+    "Storage.put changes the key's list only on paths where the id was not found or version >= old was established "
+    "(path query on the CFG, independent of the try/if shape); Storage.clean examines every value (no early exit); "
+    "store-peer requires the token and target == peer.mid. Locals are followed through their definitions, guards are "
+    "taken from dominating facts. Interleavings with clock advances are not explored."
 )
 
 DC = "ipv8/dht/community.py"
 DS = "ipv8/dht/storage.py"
 DD = "ipv8/dht/discovery.py"
+
+
+# ------------------------------------------------------------------------------------------------ small helpers
+def _unwrap_iter(e: ast.AST) -> ast.AST:
+    """list(x) / tuple(x) / sorted(x) / reversed(x) / iter(x) -> x: the same elements (the rules that use this do not
+    depend on the order of iteration)."""
+    e = strip_cast(e)
+    while isinstance(e, ast.Call) and isinstance(e.func, ast.Name) and e.func.id in ("list", "tuple", "sorted", "reversed", "iter") \
+            and len(e.args) == 1 and not e.keywords:
+        e = strip_cast(e.args[0])
+    return e
+
+
+def _rnorm(fi: FuncInfo, e: ast.AST | None) -> str:
+    """text of an expression after following single-assignment local aliases"""
+    return "<none>" if e is None else norm(resolve(fi, e))
+
+
+def _is_none(e: ast.AST | None) -> bool:
+    return isinstance(e, ast.Constant) and e.value is None
+
+
+def _returns(fi: FuncInfo) -> list[ast.Return]:
+    return [r for r in walk_no_nested(fi.node) if isinstance(r, ast.Return)]
+
+
+def _assignments(fi: FuncInfo):
+    """(stmt, [targets], value) of every plain / annotated assignment of the function"""
+    for n in walk_no_nested(fi.node):
+        if isinstance(n, ast.Assign):
+            yield n, list(n.targets), n.value
+        elif isinstance(n, ast.AnnAssign) and n.value is not None:
+            yield n, [n.target], n.value
+
+
+def _reaching_def(fi: FuncInfo, name: str, cfg, site: ast.AST):
+    """(value, tuple index) of the only definition of local `name` that reaches `site` (None when there is not exactly one,
+    or when the function can reach the site without defining the name)."""
+    if name in fi.params():
+        return None
+    defs = local_defs(fi, name)
+    if len(defs) == 1:
+        return (defs[0][1], defs[0][2]) if defs[0][1] is not None else None
+    if cfg is None or site is None or not defs:
+        return None
+    sn = cfg.nodes_for(site)
+    dn = {i: cfg.nodes_for(d[0]) for i, d in enumerate(defs)}
+    alln = [n for ns in dn.values() for n in ns]
+    if not sn or any(s in cfg.reach(cut_nodes=alln) for s in sn):
+        return None
+    hit = []
+    for i, d in enumerate(defs):
+        others = [n for n in alln if n not in dn[i]]
+        r = cfg.reach([v for n in dn[i] for v, lab in n.succ if lab != "exc"], cut_nodes=others)
+        if any(s in r for s in sn):
+            hit.append(d)
+    if len(hit) == 1 and hit[0][1] is not None:
+        return hit[0][1], hit[0][2]
+    return None
+
+
+def _elem_of(fi: FuncInfo, e: ast.AST | None, cfg=None, site: ast.AST | None = None):
+    """(resolved tuple expression, index) when e denotes one element of a tuple value: `a, b, c = X` ... `b`, or `X[1]`.
+    With a cfg, a name with several definitions is followed to the one definition that reaches `site`."""
+    if e is None:
+        return None
+    e = strip_cast(e)
+    for _ in range(5):
+        if isinstance(e, ast.Name):
+            d = _reaching_def(fi, e.id, cfg, site)
+            if d is None:
+                return None
+            if d[1] is not None:
+                return resolve(fi, d[0]), d[1]
+            e = strip_cast(d[0])
+            continue
+        if isinstance(e, ast.Subscript) and type(const_value(e.slice)) is int:
+            return resolve(fi, e.value), const_value(e.slice)
+        return None
+    return None
+
+
+def _truth_fact(f, pred) -> bool:
+    """the fact says `X` is present: truthy X, or X is not None (for values that are None or a non-empty object)"""
+    if f.op == "truthy" and f.pos and pred(f.left):
+        return True
+    return f.op == "is" and not f.pos and _is_none(f.right) and pred(f.left)
+
+
+def _cond_edge_fact(u, lab):
+    """the fact established by leaving condition node u over its True / False edge"""
+    if u.kind != "cond" or lab not in (True, False):
+        return None
+    return fact_of(u.ast, lab)
+
+
+# ------------------------------------------------------------------------------------------------ store gate
+def _len_of(fi: FuncInfo, e: ast.AST, what) -> bool:
+    e = resolve(fi, e)
+    return isinstance(e, ast.Call) and chain(e.func) == "len" and len(e.args) == 1 and what(e.args[0])
+
+
+def _too_long(fi: FuncInfo, atom: ast.AST, pol: bool, var: str) -> bool | None:
+    """atom (with polarity pol) says: len(var) > MAX_ENTRY_SIZE -> True;  len(var) <= MAX_ENTRY_SIZE (or <) -> False; else None"""
+    fs = _atoms_with_polarity(atom, pol)
+    if len(fs) != 1:
+        return None
+    f = fs[0]
+    is_var = lambda x: isinstance(x, ast.Name) and x.id == var  # noqa: E731
+    if f.op != "lt":
+        return None
+    if chain(f.left) == "MAX_ENTRY_SIZE" and _len_of(fi, f.right, is_var):
+        return f.pos                       # MAX < len  /  not MAX < len
+    if chain(f.right) == "MAX_ENTRY_SIZE" and _len_of(fi, f.left, is_var) and f.pos:
+        return False                       # len < MAX (stricter than required)
+    return None
+
+
+def _size_gate(fi: FuncInfo, cfg, add: ast.Call, fs, is_values) -> bool:
+    """every value of the request is known to be <= MAX_ENTRY_SIZE when `add` runs"""
+    for f in fs:
+        if f.op != "truthy" or not isinstance(f.left, ast.Call) or chain(f.left.func) not in ("any", "all") or len(f.left.args) != 1:
+            continue
+        gen = f.left.args[0]
+        if not isinstance(gen, (ast.GeneratorExp, ast.ListComp)) or len(gen.generators) != 1:
+            continue
+        g = gen.generators[0]
+        if g.ifs or g.is_async or not isinstance(g.target, ast.Name) or not is_values(_unwrap_iter(g.iter)):
+            continue
+        if chain(f.left.func) == "any" and not f.pos and _too_long(fi, gen.elt, True, g.target.id) is True:
+            return True                    # not any(len(v) > MAX for v in values)
+        if chain(f.left.func) == "all" and f.pos and _too_long(fi, gen.elt, True, g.target.id) is False:
+            return True                    # all(len(v) <= MAX for v in values)
+    # explicit loop: `for v in values: if len(v) > MAX: return` completed before the add
+    exhausted = [l for l, pol in loop_facts(cfg, add) if pol is False and isinstance(l, ast.For)]
+    for l in exhausted:
+        if not isinstance(l.target, ast.Name) or not is_values(_unwrap_iter(l.iter)) or len(local_defs(fi, l.target.id)) != 1:
+            continue
+        heads = [n for n in cfg.nodes_for(l) if n.kind == "loop"]
+        for c in cfg.nodes:
+            if c.kind != "cond" or l not in list(ancestors(c.ast)):
+                continue
+            if _too_long(fi, c.ast, True, l.target.id) is not True:
+                continue
+            # an iteration gets back to the loop head (and so to the code after the loop) only over `not too long`
+            ok = True
+            for h in heads:
+                body = [v for v, lab in h.succ if lab is True]
+                r = cfg.reach(body, cut_edge=lambda u, v, lab, c=c: u is c and lab is False)
+                if h in r or any(n in r for n in cfg.nodes_for(add)):
+                    ok = False
+            if ok and heads:
+                return True
+    return False
 
 
 def rule_store_gate(ctx: Ctx) -> None:
@@ -31,34 +188,41 @@ def rule_store_gate(ctx: Ctx) -> None:
     cfg = ctx.cfg(fi)
     peer, payload = fi.params()[1], fi.params()[2]
     adds = ctx.anchor(calls(fi, "self.add_value"), "add_value in on_store_request")
-    # the requesting node: first definition of `node`
-    ndefs = [d for d in local_defs(fi, "node") if d[1] is not None]
-    req = [d for d in ndefs if isinstance(strip_cast(d[1]), ast.Call) and chain(strip_cast(d[1]).func) == "self.get_requesting_node"
-           and chain(arg(strip_cast(d[1]), 0)) == peer]
+    # the requesting node: the local bound to get_requesting_node(<authenticated peer>)
+    req = []
+    for st, targets, value in _assignments(fi):
+        v = strip_cast(value)
+        if isinstance(v, ast.Call) and chain(v.func) == "self.get_requesting_node" and _rnorm(fi, arg(v, 0)) == peer:
+            req += [(st, t.id) for t in targets if isinstance(t, ast.Name)]
     ctx.check(len(req) == 1, "store-gate", fi, fi.node, "requesting node = get_requesting_node(<authenticated peer>)",
               "the node whose token is checked is not derived from the authenticated sender")
+    rn = req[0][1] if len(req) == 1 else None
+    is_rn = lambda e: isinstance(e, ast.Name) and e.id == rn  # noqa: E731
+    is_values = lambda e: _rnorm(fi, e) == f"{payload}.values"  # noqa: E731
     for a in adds:
         fs = facts_at(cfg, a)
-        has_node = any(f.op == "truthy" and f.pos and chain(f.left) == "node" for f in fs)
-        size = any(f.op == "truthy" and not f.pos and isinstance(f.left, ast.Call) and chain(f.left.func) == "any"
-                   and "> MAX_ENTRY_SIZE" in norm(f.left) and f"in {payload}.values" in norm(f.left) and "len(" in norm(f.left) for f in fs)
-        count = any(f.op == "lt" and not f.pos and norm(f.left) == "MAX_VALUES_IN_STORE" and norm(f.right) == f"len({payload}.values)" for f in fs)
+        has_node = rn is not None and any(_truth_fact(f, is_rn) for f in fs)
+        size = _size_gate(fi, cfg, a, fs, is_values)
+        count = any(f.op == "lt" and (not f.pos and chain(f.left) == "MAX_VALUES_IN_STORE" and _len_of(fi, f.right, is_values)
+                                      or f.pos and chain(f.right) == "MAX_VALUES_IN_STORE" and _len_of(fi, f.left, is_values)) for f in fs)
         tok = None
         for f in fs:
             if f.op == "truthy" and f.pos and isinstance(f.left, ast.Call) and chain(f.left.func) == "self.check_token":
                 tok = f.left
-        tok_ok = tok is not None and chain(arg(tok, 0)) == "node" and norm(arg(tok, 1)) == f"{payload}.token"
-        # the token check must see the requesting node, i.e. happen before `node` is rebound by the closest-nodes loop
-        if tok_ok and req:
-            rebinds = [d[0] for d in local_defs(fi, "node") if d[0] is not req[0][0]]
+        tok_ok = tok is not None and rn is not None and is_rn(strip_cast(arg(tok, 0))) and _rnorm(fi, arg(tok, 1)) == f"{payload}.token"
+        # the token check must see the requesting node, i.e. happen before that local is rebound (closest-nodes loop)
+        if tok_ok:
+            rebinds = [d[0] for d in local_defs(fi, rn) if d[0] is not req[0][0]]
             tn = [n for n in cfg.nodes if n.kind == "cond" and n.ast is tok]
             for rb in rebinds:
-                for rn in cfg.nodes_for(rb):
-                    after = cfg.reach([v for v, lab in rn.succ])
+                for rbn in cfg.nodes_for(rb):
+                    after = cfg.reach([v for v, lab in rbn.succ])
                     if any(t in after for t in tn):
                         tok_ok = False
-        val_ok = isinstance(arg(a, 1), ast.Name) and any(isinstance(l, ast.For) and norm(l.iter) == f"{payload}.values" and norm(l.target) == norm(arg(a, 1)) for l in ancestors(a))
-        key_ok = norm(arg(a, 0)) == f"{payload}.target"
+        val = strip_cast(arg(a, 1)) if arg(a, 1) is not None else None
+        val_ok = isinstance(val, ast.Name) and any(isinstance(l, ast.For) and is_values(_unwrap_iter(l.iter)) and isinstance(l.target, ast.Name)
+                                                   and l.target.id == val.id for l in ancestors(a)) and len(local_defs(fi, val.id)) == 1
+        key_ok = _rnorm(fi, arg(a, 0)) == f"{payload}.target"
         ctx.check(has_node and size and count and tok_ok and val_ok and key_ok, "store-gate", fi, a,
                   "add_value dominated by: requesting node, all values <= MAX_ENTRY_SIZE, count <= MAX_VALUES_IN_STORE, check_token(node, payload.token)",
                   f"a value can be stored without the token/size/count gate (node={has_node} size={size} count={count} token={tok_ok} values={val_ok} key={key_ok})",
@@ -69,33 +233,96 @@ def rule_store_gate(ctx: Ctx) -> None:
         ctx.check(isinstance(v, int) and lo <= v <= hi, "store-gate", DC, name, f"{name} = {v}", f"limit {name} is missing or not a sane constant ({v})")
 
 
+# ------------------------------------------------------------------------------------------------ tokens
 def _token_preimage(fi: FuncInfo, e: ast.AST):
-    """hashlib.sha1(str(node).encode() + <secret>).digest() -> (node expr text, secret expr)"""
-    e = strip_cast(e)
-    if isinstance(e, ast.Call) and call_name(e) == "digest" and isinstance(e.func.value, ast.Call) and chain(e.func.value.func) == "hashlib.sha1":
-        pre = e.func.value.args[0]
+    """hashlib.sha1(<node bytes> + <secret>).digest() -> (node bytes expr, secret expr); locals are followed"""
+    e = resolve(fi, e)
+    if isinstance(e, ast.Call) and call_name(e) == "digest" and not e.args and isinstance(e.func, ast.Attribute) \
+            and isinstance(e.func.value, ast.Call) and chain(e.func.value.func) == "hashlib.sha1" and len(e.func.value.args) == 1:
+        pre = resolve(fi, e.func.value.args[0])
         if isinstance(pre, ast.BinOp) and isinstance(pre.op, ast.Add):
-            return norm(pre.left), pre.right
+            return resolve(fi, pre.left), resolve(fi, pre.right)
     return None
+
+
+def _node_bytes(fi: FuncInfo, e: ast.AST, param: str) -> bool:
+    """str(<param>).encode()  (default / utf-8 encoding): address and key of the requester"""
+    if not (isinstance(e, ast.Call) and call_name(e) == "encode" and isinstance(e.func, ast.Attribute) and not e.keywords):
+        return False
+    if e.args and not (len(e.args) == 1 and str(const_value(e.args[0])).lower().replace("-", "") == "utf8"):
+        return False
+    s = resolve(fi, e.func.value)
+    return isinstance(s, ast.Call) and chain(s.func) == "str" and len(s.args) == 1 and not s.keywords and _rnorm(fi, s.args[0]) == param
+
+
+def _token_match(ct: FuncInfo, f, secret_var: str) -> bool:
+    """fact: sha1(str(node) + <secret_var>) == token"""
+    node_p, tok_p = ct.params()[1], ct.params()[2]
+    if f.op != "eq" or not f.pos:
+        return False
+    for a, b in ((f.left, f.right), (f.right, f.left)):
+        pre = _token_preimage(ct, a)
+        if pre is not None and _node_bytes(ct, pre[0], node_p) and isinstance(pre[1], ast.Name) and pre[1].id == secret_var \
+                and _rnorm(ct, b) == tok_p:
+            return True
+    return False
+
+
+def _is_secrets(e: ast.AST) -> bool:
+    return norm(_unwrap_iter(e)) == "self.token_secrets"
+
+
+def _check_token_ok(ctx: Ctx, ct: FuncInfo) -> bool:
+    """check_token answers truthy only when sha1(str(node) + s) == token for some s in self.token_secrets"""
+    cfg = ctx.cfg(ct)
+    tok_p = ct.params()[2]
+    if local_defs(ct, ct.params()[1]) or local_defs(ct, tok_p):
+        return False
+    positive = 0
+    for r in _returns(ct):
+        v = resolve(ct, r.value) if r.value is not None else ast.Constant(value=None)
+        if isinstance(v, ast.Constant):
+            if not v.value:
+                continue
+            # `return True` inside `for s in self.token_secrets:` under `sha1(str(node) + s) == token`
+            fs = facts_at(cfg, r)
+            ok = False
+            for l in ancestors(r):
+                if isinstance(l, ast.For) and isinstance(l.target, ast.Name) and _is_secrets(l.iter) and len(local_defs(ct, l.target.id)) == 1:
+                    ok = ok or any(_token_match(ct, f, l.target.id) and l in list(ancestors(f.atom)) for f in fs)
+            if not ok:
+                return False
+            positive += 1
+            continue
+        gen = None
+        if isinstance(v, ast.Call) and chain(v.func) == "any" and len(v.args) == 1 and isinstance(v.args[0], (ast.GeneratorExp, ast.ListComp)):
+            gen = v.args[0]
+            atoms = _atoms_with_polarity(gen.elt, True)
+        elif isinstance(v, ast.Compare) and len(v.ops) == 1 and isinstance(v.ops[0], ast.In) and _rnorm(ct, v.left) == tok_p \
+                and isinstance(v.comparators[0], (ast.GeneratorExp, ast.ListComp, ast.SetComp)):
+            # token in [sha1(str(node) + s) for s in secrets]
+            gen = v.comparators[0]
+            atoms = [fact_of(ast.Compare(left=gen.elt, ops=[ast.Eq()], comparators=[v.left]), True)]
+        if gen is None or len(gen.generators) != 1:
+            return False
+        g = gen.generators[0]
+        if g.ifs or g.is_async or not isinstance(g.target, ast.Name) or not _is_secrets(g.iter):
+            return False
+        if len(atoms) != 1 or not _token_match(ct, atoms[0], g.target.id):
+            return False
+        positive += 1
+    return positive >= 1
 
 
 def rule_token(ctx: Ctx) -> None:
     repo = ctx.repo
     gt = repo.method("DHTCommunity", "generate_token", DC)
     ct = repo.method("DHTCommunity", "check_token", DC)
-    gr = [r for r in walk_no_nested(gt.node) if isinstance(r, ast.Return)]
-    cr = [r for r in walk_no_nested(ct.node) if isinstance(r, ast.Return)]
-    g = _token_preimage(gt, gr[0].value) if len(gr) == 1 else None
-    ok_g = g is not None and g[0] == f"str({gt.params()[1]}).encode()" and norm(g[1]) == "self.token_secrets[-1]"
+    gr = _returns(gt)
+    g = _token_preimage(gt, gr[0].value) if len(gr) == 1 and gr[0].value is not None else None
+    ok_g = g is not None and not local_defs(gt, gt.params()[1]) and _node_bytes(gt, g[0], gt.params()[1]) and norm(g[1]) == "self.token_secrets[-1]"
     ctx.check(ok_g, "token-preimage", gt, gt.node, "token = sha1(str(node) + newest secret)", "generate_token does not bind the token to the requester identity and the newest secret")
-    ok_c = False
-    if len(cr) == 1 and isinstance(cr[0].value, ast.Call) and chain(cr[0].value.func) == "any":
-        gen = cr[0].value.args[0]
-        if isinstance(gen, ast.GeneratorExp) and isinstance(gen.elt, ast.Compare) and isinstance(gen.elt.ops[0], ast.Eq):
-            c = _token_preimage(ct, gen.elt.left)
-            sv = norm(gen.generators[0].target)
-            ok_c = c is not None and c[0] == f"str({ct.params()[1]}).encode()" and norm(c[1]) == sv and norm(gen.generators[0].iter) == "self.token_secrets" \
-                and norm(gen.elt.comparators[0]) == ct.params()[2]
+    ok_c = _check_token_ok(ctx, ct)
     ctx.check(ok_c, "token-preimage", ct, ct.node, "check_token compares with sha1(str(node) + s) for s in token_secrets", "check_token accepts tokens not derived from the requester identity and a live secret")
     # secrets: deque(maxlen=2), appended only in token_maintenance, registered at 300 s
     sec_stores, appends = [], []
@@ -108,10 +335,14 @@ def rule_token(ctx: Ctx) -> None:
     ok = len(sec_stores) == 1 and sec_stores[0][0].name == "__init__"
     if ok:
         v = strip_cast(sec_stores[0][1].value)
-        ok = isinstance(v, ast.Call) and chain(v.func) == "deque" and const_value(arg(v, None, "maxlen")) == 2
+        ok = isinstance(v, ast.Call) and chain(v.func) in ("deque", "collections.deque") and const_value(arg(v, 1, "maxlen")) == 2
     ctx.check(ok, "token-preimage", DC, "token_secrets", "token_secrets = deque(maxlen=2), assigned once", "more than two secrets stay valid (or the deque is rebound)")
     for fi, c in appends:
-        ok = fi is not None and fi.qualname == "DHTCommunity.token_maintenance" and call_name(c) == "append" and norm(arg(c, 0)) == "os.urandom(16)"
+        ok = fi is not None and fi.qualname == "DHTCommunity.token_maintenance" and call_name(c) == "append"
+        if ok:
+            rnd = resolve(fi, arg(c, 0))
+            n = const_value(arg(rnd, 0)) if isinstance(rnd, ast.Call) and chain(rnd.func) == "os.urandom" else None
+            ok = type(n) is int and n >= 16
         ctx.check(ok, "token-preimage", fi or DC, c, "secrets appended only by token_maintenance (os.urandom(16))", "token secrets are modified elsewhere or are not random")
     init = repo.method("DHTCommunity", "__init__", DC)
     regs = [c for c in calls(init, "self.register_task") if chain(arg(c, 1)) == "self.token_maintenance"]
@@ -123,104 +354,422 @@ def rule_token(ctx: Ctx) -> None:
     ctx.check(bool(vm) and (repo.resolve_const(init.module, arg(vm[0], None, "interval")) or 0) > 0, "expiry-sweep", init, init.node,
               "value_maintenance registered periodically", "expired values are never cleaned (value_maintenance not scheduled)")
     vmf = repo.method("DHTCommunity", "value_maintenance", DC)
-    ok = any(isinstance(l, ast.For) and norm(l.iter) == "self.storages.values()" and any(call_name(c) == "clean" for c in ast.walk(l) if isinstance(c, ast.Call))
-             for l in walk_no_nested(vmf.node))
+    # every storage is cleaned: an unconditional loop over self.storages (values / keys / items) with a clean() call in it
+    ok = False
+    cfgm = ctx.cfg(vmf)
+    for l in walk_no_nested(vmf.node):
+        if isinstance(l, ast.For) and chain(_unwrap_iter(l.iter)) in ("self.storages.values()", "self.storages", "self.storages.keys()", "self.storages.items()"):
+            cl = [c for c in ast.walk(l) if isinstance(c, ast.Call) and call_name(c) == "clean"]
+            early = [x for x in ast.walk(l) if isinstance(x, (ast.Break, ast.Return, ast.Continue))]
+            ok = ok or (bool(cl) and not early and any(not facts_at(cfgm, c) for c in cl))
+        elif isinstance(l, (ast.ListComp, ast.GeneratorExp, ast.SetComp)) and len(l.generators) == 1 and not l.generators[0].ifs \
+                and chain(_unwrap_iter(l.generators[0].iter)) in ("self.storages.values()", "self.storages", "self.storages.items()") \
+                and isinstance(l, ast.ListComp) and isinstance(l.elt, ast.Call) and call_name(l.elt) == "clean":
+            ok = True
     ctx.check(ok, "expiry-sweep", vmf, vmf.node, "value_maintenance cleans every storage", "value_maintenance skips storages")
 
 
+# ------------------------------------------------------------------------------------------------ signed values
 def rule_signed(ctx: Ctx) -> None:
     repo = ctx.repo
     fi = repo.method("DHTCommunity", "unserialize_value", DC)
     cfg = ctx.cfg(fi)
     value = fi.params()[1]
     ctx.check(not local_defs(fi, value), "signed-means-verified", fi, fi.node, "value parameter not rebound", "unserialize_value rebinds its input")
+    is_value = lambda e: _rnorm(fi, e) == value  # noqa: E731
     n = 0
-    for r in [r for r in walk_no_nested(fi.node) if isinstance(r, ast.Return) and isinstance(r.value, ast.Tuple) and len(r.value.elts) == 3]:
-        pk = r.value.elts[1]
-        if isinstance(pk, ast.Constant) and pk.value is None:
+    for r in _returns(fi):
+        rv = resolve(fi, r.value) if r.value is not None else None
+        if rv is None or _is_none(rv):
+            continue
+        if not (isinstance(rv, ast.Tuple) and len(rv.elts) == 3):
+            if isinstance(rv, ast.Name) and all(d[1] is not None and (_is_none(d[1]) or isinstance(d[1], ast.Tuple) and len(d[1].elts) == 3
+                                                                      and _is_none(d[1].elts[1])) for d in local_defs(fi, rv.id)):
+                continue                       # a local that only ever holds None / an unsigned result
+            raise AnalysisError(f"undecided: unserialize_value returns `{norm(r.value)}`, which is not a (data, key, version) tuple or None")
+        pk = resolve(fi, rv.elts[1])
+        if _is_none(pk):
             continue
         n += 1
         fs = facts_at(cfg, r)
         ok = False
         for f in fs:
-            if f.op == "truthy" and f.pos and isinstance(f.left, ast.Call) and call_name(f.left) == "is_valid_signature" and len(f.left.args) == 3:
+            if f.op == "truthy" and f.pos and isinstance(f.left, ast.Call) and call_name(f.left) == "is_valid_signature" and len(f.left.args) == 3 \
+                    and not f.left.keywords:
                 k, d, s = (resolve(fi, a) for a in f.left.args)
-                key_ok = isinstance(k, ast.Call) and call_name(k) == "key_from_public_bin" and norm(arg(k, 0)) == norm(pk)
-                def neg_len(e):
+                key_ok = isinstance(k, ast.Call) and call_name(k) == "key_from_public_bin" and _rnorm(fi, arg(k, 0)) == norm(pk)
+
+                def neg_len(e, k=k):
+                    e = resolve(fi, e)
                     e2 = resolve(fi, e.operand) if isinstance(e, ast.UnaryOp) and isinstance(e.op, ast.USub) else None
                     return isinstance(e2, ast.Call) and call_name(e2) == "get_signature_length" and norm(resolve(fi, arg(e2, 0))) == norm(k)
-                d_ok = isinstance(d, ast.Subscript) and chain(d.value) == value and isinstance(d.slice, ast.Slice) and d.slice.lower is None and d.slice.upper is not None and neg_len(d.slice.upper)
-                s_ok = isinstance(s, ast.Subscript) and chain(s.value) == value and isinstance(s.slice, ast.Slice) and s.slice.upper is None and s.slice.lower is not None and neg_len(s.slice.lower)
-                ok = key_ok and d_ok and s_ok
+                d_ok = isinstance(d, ast.Subscript) and is_value(d.value) and isinstance(d.slice, ast.Slice) and d.slice.lower is None \
+                    and d.slice.step is None and d.slice.upper is not None and neg_len(d.slice.upper)
+                s_ok = isinstance(s, ast.Subscript) and is_value(s.value) and isinstance(s.slice, ast.Slice) and s.slice.upper is None \
+                    and s.slice.step is None and s.slice.lower is not None and neg_len(s.slice.lower)
+                ok = ok or (key_ok and d_ok and s_ok)
         # the reported key is the one carried in the verified payload
         src = isinstance(pk, ast.Attribute) and pk.attr == "public_key"
         ctx.check(ok and src, "signed-means-verified", fi, r, "a signer is reported only under is_valid_signature(key(payload.public_key), value[:-L], value[-L:])",
                   "unserialize_value reports data as signed by a key without verifying the signature over the whole value with that key", [str(f) for f in fs])
     ctx.floor("signed-means-verified", n, 1)
+
+    # lookups: per signer the entry with the highest version
     pp = repo.method("DHTCommunity", "post_process_values", DC)
-    mx = [c for c in calls(pp, "max")]
-    ok = len(mx) == 1 and isinstance(arg(mx[0], None, "key"), ast.Lambda) and norm(arg(mx[0], None, "key").body).endswith("[0]")
-    ap = [c for c in calls(pp) if call_name(c) == "append" and isinstance(arg(c, 0), ast.Tuple) and len(arg(c, 0).elts) == 2 and chain(c.func).startswith("unpacked")]
-    ok = ok and bool(ap) and norm(ap[0].args[0].elts[0]) == "version"
-    ctx.check(ok, "signed-means-verified", pp, pp.node, "per signer the entry with max(version) is reported", "lookups do not report the highest version per signer")
     us = [c for c in calls(pp, "self.unserialize_value")]
+    is_unser = lambda e: isinstance(e, ast.Call) and chain(e.func) == "self.unserialize_value"  # noqa: E731
+    vpos = None
+    for c in calls(pp):
+        t = arg(c, 0)
+        if call_name(c) != "append" or not isinstance(t, ast.Tuple) or len(t.elts) != 2 or not isinstance(c.func, ast.Attribute):
+            continue
+        recv = resolve(pp, c.func.value)
+        cfgp = ctx.cfg(pp)
+        signer = _elem_of(pp, recv.slice, cfgp, c) if isinstance(recv, ast.Subscript) else None
+        if signer is None or not is_unser(signer[0]) or signer[1] != 1:
+            continue                               # not the per-signer collection
+        el = [_elem_of(pp, x, cfgp, c) for x in t.elts]
+        for i in (0, 1):
+            if el[i] is not None and is_unser(el[i][0]) and el[i][1] == 2 and el[1 - i] is not None and is_unser(el[1 - i][0]) and el[1 - i][1] == 0:
+                vpos = i
+    mx = [c for c in calls(pp, "max")]
+    ok = len(mx) == 1 and vpos is not None
+    if ok:
+        key = arg(mx[0], None, "key")
+        if key is None:
+            ok = vpos == 0 and len(mx[0].args) == 1  # tuples compare by their first element (the version) first
+        elif isinstance(key, ast.Lambda) and len(key.args.args) == 1:
+            b = key.body
+            ok = isinstance(b, ast.Subscript) and isinstance(b.value, ast.Name) and b.value.id == key.args.args[0].arg and const_value(b.slice) == vpos \
+                and type(const_value(b.slice)) is int
+        else:
+            ok = isinstance(key, ast.Call) and chain(key.func) in ("itemgetter", "operator.itemgetter") and len(key.args) == 1 \
+                and type(const_value(key.args[0])) is int and const_value(key.args[0]) == vpos
+    ctx.check(ok, "signed-means-verified", pp, pp.node, "per signer the entry with max(version) is reported", "lookups do not report the highest version per signer")
     ctx.check(len(us) == 1, "signed-means-verified", pp, pp.node, "lookup results go through unserialize_value", "lookup results bypass signature verification")
+
     # add_value stores under sha1(signer) with the verified version
     av = repo.method("DHTCommunity", "add_value", DC)
-    puts = [c for c in calls(av) if call_name(c) == "put"]
-    ok = len(puts) == 1 and norm(arg(puts[0], None, "version")) == "version" and norm(resolve(av, arg(puts[0], None, "id_"))) == "hashlib.sha1(public_key).digest() if public_key else None"
     cfgv = ctx.cfg(av)
-    ok = ok and any(f.op == "truthy" and f.pos and chain(f.left) == "unserialized" for f in facts_at(cfgv, puts[0])) if puts else False
+    keyp, valp = av.params()[1], av.params()[2]
+    is_unser_v = lambda e: isinstance(resolve(av, e), ast.Call) and chain(resolve(av, e).func) == "self.unserialize_value" \
+        and _rnorm(av, arg(resolve(av, e), 0)) == valp  # noqa: E731
+
+    def is_elem(e, idx):
+        el = _elem_of(av, e)
+        return el is not None and is_unser_v(el[0]) and el[1] == idx
+
+    def is_signer_hash(e):
+        e = resolve(av, e)
+        return isinstance(e, ast.Call) and call_name(e) == "digest" and not e.args and isinstance(e.func, ast.Attribute) \
+            and isinstance(e.func.value, ast.Call) and chain(e.func.value.func) == "hashlib.sha1" and len(e.func.value.args) == 1 \
+            and is_elem(e.func.value.args[0], 1)
+
+    def signer_present(f):
+        return f.op == "truthy" and f.pos and is_elem(f.left, 1)
+
+    def id_ok(put: ast.Call) -> bool:
+        e = strip_cast(arg(put, 2, "id_")) if arg(put, 2, "id_") is not None else None
+        if e is None:
+            return False
+        r = resolve(av, e)
+        if isinstance(r, ast.IfExp):
+            fs = _atoms_with_polarity(r.test, True)
+            if len(fs) != 1 or fs[0].op != "truthy" or not is_elem(fs[0].left, 1):
+                return False
+            yes, no = (r.body, r.orelse) if fs[0].pos else (r.orelse, r.body)
+            return is_signer_hash(yes) and _is_none(resolve(av, no))
+        if not isinstance(r, ast.Name):
+            return False
+        # several reaching definitions: `id_ = None` and, only for a present signer, `id_ = sha1(signer)`
+        defs = local_defs(av, r.id)
+        hashed = [d for d in defs if d[1] is not None and d[2] is None and is_signer_hash(d[1])]
+        empty = [d for d in defs if d[1] is not None and d[2] is None and _is_none(d[1])]
+        if not hashed or len(hashed) + len(empty) != len(defs):
+            return False
+        hn = [n for d in hashed for n in cfgv.nodes_for(d[0])]
+        en = [n for d in empty for n in cfgv.nodes_for(d[0])]
+        pn = cfgv.nodes_for(put)
+        # the hash is only taken for a present signer ...
+        if not all(any(signer_present(f) for f in facts_at(cfgv, d[0])) for d in hashed):
+            return False
+        # ... a present signer always gets it: without a hash definition the put is reached only over `not signer`
+        def signer_absent(u, v, lab):
+            f = _cond_edge_fact(u, lab)
+            return f is not None and f.op == "truthy" and not f.pos and is_elem(f.left, 1)
+        r1 = cfgv.reach(cut_nodes=hn, cut_edge=signer_absent)
+        if any(p in r1 for p in pn):
+            return False
+        # ... and it is not reset afterwards
+        for h in hn:
+            after = cfgv.reach([v for v, lab in h.succ if lab != "exc"])
+            if any(x in after for x in en):
+                return False
+        return True
+
+    puts = [c for c in calls(av) if call_name(c) == "put"]
+    ok = len(puts) == 1
+    if ok:
+        p = puts[0]
+        ok = is_elem(arg(p, 4, "version"), 2) and id_ok(p) and _rnorm(av, arg(p, 0, "key")) == keyp and _rnorm(av, arg(p, 1, "data")) == valp \
+            and not local_defs(av, keyp) and not local_defs(av, valp)
+        ok = ok and any(_truth_fact(f, is_unser_v) for f in facts_at(cfgv, p))
     ctx.check(ok, "signed-means-verified", av, av.node, "add_value stores only values that unserialize (valid signature if signed), keyed by signer, with their version",
               "add_value stores values that failed verification or loses signer/version")
+
+
+# ------------------------------------------------------------------------------------------------ storage
+_LIST_MUTATORS = ("pop", "insert", "remove", "__setitem__", "__delitem__", "clear")
+_LIST_QUIET = ("pop", "insert", "sort", "append", "reverse")     # list methods that never raise ValueError
+
+
+def _put_version_guard(ctx: Ctx, put: FuncInfo):
+    """
+    Storage.put: every change of the key's list that can drop or replace an entry happens either when no entry with the
+    new value's id exists (index() raised / `not in` / the index local is None) or after new.version >= old.version
+    was established for old = <list>[<list>.index(new)].  Decided on paths of the CFG, not on the shape of the try/if.
+    Returns (sites: [(node ast, ok, facts)], guards found, new-value names, is_list, is_new, is_old).
+    """
+    cfg = ctx.cfg(put)
+    key = put.params()[1]
+
+    def is_list(e):
+        r = resolve(put, e)
+        return isinstance(r, ast.Subscript) and chain(r.value) == "self.items" and isinstance(strip_cast(r.slice), ast.Name) and strip_cast(r.slice).id == key
+
+    news = {}
+    for st, targets, value in _assignments(put):
+        v = strip_cast(value)
+        if isinstance(v, ast.Call) and chain(v.func) == "Value":
+            for t in targets:
+                if isinstance(t, ast.Name) and single_def(put, t.id) is not None:
+                    news[t.id] = v
+    ctx.anchor(news, "new Value(...) in Storage.put")
+
+    def is_new(e):
+        e = strip_cast(e)
+        return isinstance(e, ast.Name) and e.id in news
+
+    index_calls = [c for c in calls(put) if call_name(c) == "index" and isinstance(c.func, ast.Attribute) and is_list(c.func.value)
+                   and len(c.args) == 1 and is_new(c.args[0])]
+    ctx.anchor(index_calls, "lookup <items[key]>.index(<new value>) in Storage.put")
+    index_nodes = [n for c in index_calls for n in cfg.nodes_for(c)]
+    idx_names: set[str] = set()
+    for st, targets, value in _assignments(put):
+        if strip_cast(value) in index_calls:
+            idx_names |= {t.id for t in targets if isinstance(t, ast.Name)}
+    found_after = cfg.reach([v for u in index_nodes for v, lab in u.succ if lab != "exc"])
+    for nm in idx_names:
+        for st, val, ti in local_defs(put, nm):
+            if val is not None and strip_cast(val) in index_calls:
+                continue
+            # any other definition must be the `not found` marker None, taken only when index() did not complete
+            if not _is_none(val) or any(n in found_after for n in cfg.nodes_for(st)):
+                raise AnalysisError(f"undecided: Storage.put rebinds the lookup result `{nm}` ({head(st)})")
+
+    def is_idx(e):
+        e = strip_cast(e)
+        return isinstance(e, ast.Name) and e.id in idx_names or e in index_calls
+
+    def is_old(e):
+        r = resolve(put, e)
+        return isinstance(r, ast.Subscript) and is_list(r.value) and is_idx(r.slice)
+
+    def version_of(e, who):
+        e = resolve(put, e)
+        return isinstance(e, ast.Attribute) and e.attr == "version" and who(e.value)
+
+    guards = []
+
+    def not_older(f) -> bool:
+        if f is None:
+            return False
+        if f.op == "lt":
+            return (not f.pos and version_of(f.left, is_new) and version_of(f.right, is_old)) or \
+                   (f.pos and version_of(f.left, is_old) and version_of(f.right, is_new))
+        if f.op == "eq" and f.pos:
+            return (version_of(f.left, is_new) and version_of(f.right, is_old)) or (version_of(f.left, is_old) and version_of(f.right, is_new))
+        return False
+
+    def not_found(f) -> bool:
+        if f is None:
+            return False
+        if f.op == "is" and f.pos and _is_none(f.right) and isinstance(strip_cast(f.left), ast.Name) and strip_cast(f.left).id in idx_names:
+            return True
+        return f.op == "in" and not f.pos and is_new(f.left) and is_list(f.right)
+
+    for c in cfg.nodes:
+        for _, lab in c.succ:
+            if not_older(_cond_edge_fact(c, lab)) and c not in guards:
+                guards.append(c)
+
+    def value_error_only(dispatch) -> bool:
+        return all(h.type is not None and chain(h.type) == "ValueError" for h in dispatch.ast.handlers)
+
+    def own_calls(u):
+        return [] if u.ast is None or u.kind not in ("stmt", "cond") else [c for c in walk_no_nested(u.ast) if isinstance(c, ast.Call)]
+
+    def cannot_raise_value_error(u) -> bool:
+        if u.ast is None or isinstance(u.ast, ast.Raise) or u in index_nodes:
+            return False
+        for c in own_calls(u):
+            quiet = isinstance(c.func, ast.Attribute) and c.func.attr in _LIST_QUIET and is_list(c.func.value)
+            if not quiet and call_may_raise(c):
+                return False
+        return True
+
+    def cut(strict: bool):
+        def pred(u, v, lab):
+            if lab == "exc":
+                if u in index_nodes and v.kind == "dispatch":
+                    return True                                  # index() raised: no entry with this id
+                if v.kind == "dispatch" and value_error_only(v):
+                    # subscripts, attribute reads, integer comparisons and pop/insert/sort never raise ValueError
+                    return cannot_raise_value_error(u) or not strict
+                return False
+            f = _cond_edge_fact(u, lab)
+            return not_older(f) or not_found(f)
+        return pred
+
+    sites = []
+    for n in walk_no_nested(put.node):
+        if isinstance(n, ast.Call) and call_name(n) in _LIST_MUTATORS:
+            sites.append(n)
+        elif isinstance(n, (ast.Assign, ast.AugAssign, ast.AnnAssign, ast.Delete)):
+            tg = n.targets if isinstance(n, (ast.Assign, ast.Delete)) else [n.target]
+            for t in tg:
+                for e in (t.elts if isinstance(t, (ast.Tuple, ast.List)) else [t]):
+                    if isinstance(e, ast.Subscript) and (is_list(e.value) or chain(e.value) == "self.items"):
+                        sites.append(n)
+    out = []
+    for s in sites:
+        ns = [n for n in cfg.nodes_for(s) if cfg.reachable(n)]
+        ok = bool(ns) and all(cfg.must_pass_edges(n, cut(True)) for n in ns)
+        if not ok and ns and all(cfg.must_pass_edges(n, cut(False)) for n in ns):
+            raise AnalysisError(f"undecided: Storage.put: `{norm(s)}` is reachable through an except ValueError handler from a call "
+                                "that is not the index() lookup")
+        out.append((s, ok, [str(f) for n in ns[:1] for f in facts_at(cfg, n)]))
+    return out, guards, news, is_list, is_new, is_old
+
+
+def _single_bool(fi: FuncInfo):
+    """the expression a predicate returns: `return E`  (also through a local), else None"""
+    rs = _returns(fi)
+    if len(rs) == 1 and rs[0].value is not None:
+        return resolve(fi, rs[0].value)
+    return None
 
 
 def rule_storage(ctx: Ctx) -> None:
     repo = ctx.repo
     put = repo.method("Storage", "put", DS)
-    cfg = ctx.cfg(put)
-    tr = [t for t in walk_no_nested(put.node) if isinstance(t, ast.Try)]
-    ctx.anchor(tr, "try in Storage.put")
-    body_calls = [c for s in tr[0].body for c in ast.walk(s) if isinstance(c, ast.Call)]
+    sites, guards, news, is_list, is_new, is_old = _put_version_guard(ctx, put)
     n = 0
-    for c in body_calls:
-        if call_name(c) in ("pop", "insert", "remove", "__setitem__", "clear"):
-            n += 1
-            fs = facts_at(cfg, c)
-            ok = any(f.op == "lt" and not f.pos and norm(f.left) == "new_value.version" and norm(f.right) == "old_value.version" for f in fs)
-            ctx.check(ok, "version-monotone", put, c, "replacement only when new.version >= old.version", "a stored newer version can be replaced by an older one", [str(f) for f in fs])
+    for s, ok, facts in sites:
+        n += 1
+        ctx.check(ok, "version-monotone", put, s, "replacement only when new.version >= old.version", "a stored newer version can be replaced by an older one", facts)
     ctx.floor("version-monotone", n, 1)
-    ins = [c for c in body_calls if call_name(c) == "insert" and len(c.args) == 2 and norm(c.args[1]) == "new_value"]
-    assigns_old = [s for st in tr[0].body for s in ast.walk(st) if isinstance(s, ast.Assign) and any(norm(t).startswith("old_value.") for t in s.targets)]
-    copied = {norm(t).split(".", 1)[1] for s in assigns_old for t in s.targets}
-    ok = bool(ins) and not assigns_old or {"data", "max_age", "last_update", "version"} <= copied
+    # the accepted update stores the new Value object (which carries the new version)
+    ins = []
+    for c in calls(put):
+        if isinstance(c.func, ast.Attribute) and is_list(c.func.value) and \
+                (call_name(c) == "insert" and len(c.args) == 2 and is_new(c.args[1]) or call_name(c) == "append" and len(c.args) == 1 and is_new(c.args[0])):
+            ins.append(c)
+    for st, targets, value in _assignments(put):
+        if any(isinstance(t, ast.Subscript) and is_list(t.value) for t in targets) and is_new(value):
+            ins.append(st)
+    assigns_old = [t for nd in walk_no_nested(put.node) if isinstance(nd, (ast.Assign, ast.AugAssign, ast.AnnAssign))
+                   for t in (nd.targets if isinstance(nd, ast.Assign) else [nd.target]) if isinstance(t, ast.Attribute) and is_old(t.value)]
+    copied = {t.attr for t in assigns_old}
+    carries = all(chain(arg(v, 3, "version")) == "version" for v in news.values()) and "version" in put.params() and not local_defs(put, "version")
+    ok = (bool(ins) and not assigns_old or {"data", "max_age", "last_update", "version"} <= copied) and carries
     ctx.check(ok, "version-monotone", put, put.node, "an accepted update stores the new Value (with its version)",
               f"Storage.put refreshes the old entry in place (fields {sorted(copied)}) without carrying the new version over: the entry keeps its first version, "
               "so a later stale version passes the `>=` guard and overwrites newer data")
-    d = single_def(put, "old_value")
-    ok = d is not None and norm(d[0]) == "self.items[key][index]" and norm(single_def(put, "index")[0]) == "self.items[key].index(new_value)"
-    ctx.check(ok, "version-monotone", put, put.node, "old value = the stored value with the same id", "the version is compared with a different entry")
+    ctx.check(bool(guards), "version-monotone", put, put.node, "old value = the stored value with the same id", "the version is compared with a different entry")
     veq = repo.method("Value", "__eq__", DS)
-    ok = any(isinstance(r, ast.Return) and norm(r.value) == "self.id == other.id" for r in ast.walk(veq.node))
-    ctx.check(ok, "version-monotone", veq, veq.node, "values are identified by id (signer hash / content hash)", "value identity is not the id")
+    other = veq.params()[1] if len(veq.params()) > 1 else "other"
+    ok, seen = True, 0
+    for r in _returns(veq):
+        v = resolve(veq, r.value) if r.value is not None else None
+        if isinstance(v, ast.Constant) and v.value is False or isinstance(v, ast.Name) and v.id == "NotImplemented":
+            continue
+        fs = _atoms_with_polarity(v, True) if v is not None else []
+        good = len(fs) == 1 and fs[0].op == "eq" and fs[0].pos and {norm(fs[0].left), norm(fs[0].right)} == {"self.id", f"{other}.id"}
+        ok, seen = ok and good, seen + 1
+    ctx.check(ok and seen >= 1, "version-monotone", veq, veq.node, "values are identified by id (signer hash / content hash)", "value identity is not the id")
+
+    # ---- expiry sweep
     cl = repo.method("Storage", "clean", DS)
-    loops = [l for l in walk_no_nested(cl.node) if isinstance(l, ast.For)]
-    early = [x for x in ast.walk(cl.node) if isinstance(x, (ast.Break, ast.Return)) and (not isinstance(x, ast.Return) or x.value is not None or True)]
-    early = [x for x in early if isinstance(x, ast.Break) or any(isinstance(a, ast.For) for a in ancestors(x))]
-    ctx.check(len(loops) >= 2 and not early, "expiry-sweep", cl, early[0] if early else cl.node, "clean examines every stored value (no early exit from the sweep)",
+    cfgc = ctx.cfg(cl)
+    fors = [l for l in walk_no_nested(cl.node) if isinstance(l, ast.For)]
+    whiles = [l for l in walk_no_nested(cl.node) if isinstance(l, ast.While)]
+    outer, list_names, key_names = [], set(), set()
+    for l in fors:
+        it = _unwrap_iter(l.iter)
+        c = chain(it)
+        if c in ("self.items", "self.items.keys()") and isinstance(l.target, ast.Name):
+            outer.append(l); key_names.add(l.target.id)
+        elif c == "self.items.values()" and isinstance(l.target, ast.Name):
+            outer.append(l); list_names.add(l.target.id)
+        elif c == "self.items.items()" and isinstance(l.target, ast.Tuple) and len(l.target.elts) == 2 and all(isinstance(e, ast.Name) for e in l.target.elts):
+            outer.append(l); key_names.add(l.target.elts[0].id); list_names.add(l.target.elts[1].id)
+
+    def is_vals(e):
+        r = resolve(cl, e)
+        if isinstance(r, ast.Name):
+            return r.id in list_names
+        return isinstance(r, ast.Subscript) and chain(r.value) == "self.items" and isinstance(r.slice, ast.Name) and r.slice.id in key_names
+
+    def mentions_vals(e):
+        return any(is_vals(x) for x in ast.walk(e) if isinstance(x, (ast.Name, ast.Subscript)))
+
+    inner = [l for l in fors if any(o in list(ancestors(l)) for o in outer) and mentions_vals(l.iter)]
+
+    def not_expired(e, var):
+        fs = _atoms_with_polarity(e, True)
+        return len(fs) == 1 and fs[0].op == "truthy" and not fs[0].pos and isinstance(fs[0].left, ast.Attribute) and fs[0].left.attr == "expired" \
+            and isinstance(fs[0].left.value, ast.Name) and fs[0].left.value.id == var
+
+    # `<list>[:] = [v for v in <list> if not v.expired]`: examines every value, drops exactly the expired ones
+    filters = []
+    for st, targets, value in _assignments(cl):
+        v = strip_cast(value)
+        if isinstance(v, ast.ListComp) and len(v.generators) == 1 and len(targets) == 1 and any(o in list(ancestors(st)) for o in outer):
+            g = v.generators[0]
+            t = targets[0]
+            tgt_ok = isinstance(t, ast.Subscript) and (is_vals(t) or isinstance(t.slice, ast.Slice) and t.slice.lower is None and t.slice.upper is None
+                                                        and t.slice.step is None and is_vals(t.value))
+            if tgt_ok and isinstance(g.target, ast.Name) and isinstance(v.elt, ast.Name) and v.elt.id == g.target.id and is_vals(_unwrap_iter(g.iter)) \
+                    and len(g.ifs) == 1 and not_expired(g.ifs[0], g.target.id):
+                filters.append(st)
+    early = [x for x in ast.walk(cl.node) if isinstance(x, ast.Break) or isinstance(x, ast.Return) and any(isinstance(a, (ast.For, ast.While)) for a in ancestors(x))]
+    # a while loop whose continuation depends on an entry being expired stops at the first live one
+    early += [w for w in whiles if any(isinstance(x, ast.Attribute) and x.attr == "expired" for x in ast.walk(w.test))]
+    if whiles and not early:
+        raise AnalysisError("undecided: Storage.clean sweeps with a while loop whose coverage of the list is not decided")
+    swept = bool(outer) and (bool(inner) or bool(filters))
+    ctx.check(swept and not early, "expiry-sweep", cl, early[0] if early else cl.node, "clean examines every stored value (no early exit from the sweep)",
               "Storage.clean stops at the first value that has not expired: values are not ordered by remaining lifetime (max_age varies per put), "
               "so an expired value behind a longer-lived one survives maintenance")
-    pops = [c for c in calls(cl) if call_name(c) == "pop"]
-    cfgc = ctx.cfg(cl)
-    ok = bool(pops) and all(any(f.op == "truthy" and f.pos and norm(f.left).endswith(".expired") for f in facts_at(cfgc, p)) for p in pops)
+    pops = [c for c in calls(cl) if call_name(c) in ("pop", "remove", "clear", "popitem", "__delitem__")]
+    pops += [d for d in walk_no_nested(cl.node) if isinstance(d, ast.Delete)]
+    ok = (bool(pops) or bool(filters)) and all(any(f.op == "truthy" and f.pos and isinstance(f.left, ast.Attribute) and f.left.attr == "expired"
+                                                   for f in facts_at(cfgc, p)) for p in pops)
+    if not pops and not filters and stores(cl, lambda c: c.startswith("self.items")):
+        raise AnalysisError("undecided: Storage.clean rebuilds self.items in a way that is not decided")
     ctx.check(ok, "expiry-sweep", cl, cl.node, "only expired values are removed", "clean removes values that have not expired")
-    ok = bool(loops) and norm(loops[0].iter) in ("self.items", "list(self.items)", "self.items.keys()", "list(self.items.keys())")
-    ctx.check(ok, "expiry-sweep", cl, cl.node, "clean visits every key", "clean does not visit every key")
+    ctx.check(bool(outer), "expiry-sweep", cl, cl.node, "clean visits every key", "clean does not visit every key")
     ex = repo.cls("Value", DS).methods.get("expired")
-    ok = ex is not None and any(isinstance(r, ast.Return) and norm(r.value) == "self.age > self.max_age" for r in ast.walk(ex.node))
+    ok = False
+    if ex is not None:
+        v = _single_bool(ex)
+        fs = _atoms_with_polarity(v, True) if v is not None else []
+        ok = len(fs) == 1 and fs[0].op == "lt" and fs[0].pos and norm(fs[0].left) == "self.max_age" and norm(fs[0].right) == "self.age"
     ctx.check(ok, "expiry-sweep", ex or cl, (ex or cl).node, "expired = age > max_age", "expiry is not age > max_age")
 
 
+# ------------------------------------------------------------------------------------------------ store-peer
 def rule_store_peer(ctx: Ctx) -> None:
     repo = ctx.repo
     fi = repo.method("DHTDiscoveryCommunity", "on_store_peer_request", DD)
@@ -228,18 +777,33 @@ def rule_store_peer(ctx: Ctx) -> None:
     ctx.check(classify_handler(ctx, fi) == "authenticated", "store-peer-mid", fi, fi.node, "on_store_peer_request is authenticated", "store-peer requests are not authenticated")
     cfg = ctx.cfg(fi)
     peer, payload = fi.params()[1], fi.params()[2]
-    aps = [c for c in calls(fi) if call_name(c) == "append" and (chain(c.func) or "").startswith("self.store")]
+
+    def store_slot(c):
+        """self.store[<key>] when the call's receiver is that list (also through a local alias)"""
+        if not isinstance(c.func, ast.Attribute):
+            return None
+        r = resolve(fi, c.func.value)
+        return r if isinstance(r, ast.Subscript) and chain(r.value) == "self.store" else None
+
+    aps = [c for c in calls(fi) if call_name(c) in ("append", "insert", "extend") and store_slot(c) is not None]
     ctx.anchor(aps, "store append in on_store_peer_request")
     for a in aps:
         fs = facts_at(cfg, a)
-        tok = any(f.op == "truthy" and f.pos and isinstance(f.left, ast.Call) and chain(f.left.func) == "self.check_token"
-                  and chain(arg(f.left, 0)) == "node" and norm(arg(f.left, 1)) == f"{payload}.token" for f in fs)
-        mid = any(f.op == "eq" and f.pos and {norm(f.left), norm(f.right)} == {f"{payload}.target", f"{peer}.mid"} for f in fs)
-        d = single_def(fi, "node")
-        node_ok = d is not None and norm(d[0]) == f"Node({peer}.key, {peer}.address)"
-        ctx.check(tok and mid and node_ok and norm(a.func.value.slice) == f"{payload}.target", "store-peer-mid", fi, a,
+        tok = None
+        for f in fs:
+            if f.op == "truthy" and f.pos and isinstance(f.left, ast.Call) and chain(f.left.func) == "self.check_token" \
+                    and _rnorm(fi, arg(f.left, 1)) == f"{payload}.token":
+                tok = f.left
+        mid = any(f.op == "eq" and f.pos and {_rnorm(fi, f.left), _rnorm(fi, f.right)} == {f"{payload}.target", f"{peer}.mid"} for f in fs)
+        tn = strip_cast(arg(tok, 0)) if tok is not None and arg(tok, 0) is not None else None
+        d = single_def(fi, tn.id) if isinstance(tn, ast.Name) else None
+        dv = strip_cast(d[0]) if d is not None and d[1] is None else None
+        node_ok = isinstance(dv, ast.Call) and chain(dv.func) == "Node" and _rnorm(fi, arg(dv, 0, "key")) == f"{peer}.key" \
+            and _rnorm(fi, arg(dv, 1, "address")) == f"{peer}.address"
+        slot_ok = _rnorm(fi, store_slot(a).slice) in (f"{payload}.target", f"{peer}.mid")   # equal under the `mid` fact
+        ctx.check(tok is not None and mid and node_ok and slot_ok, "store-peer-mid", fi, a,
                   "peer stored only with a valid token for the sender and target == sender's mid",
-                  f"a peer can be stored under a key that is not its own mid or without a valid token (token={tok} mid={mid} node={node_ok})", [str(f) for f in fs])
+                  f"a peer can be stored under a key that is not its own mid or without a valid token (token={tok is not None} mid={mid} node={node_ok})", [str(f) for f in fs])
 
 
 def run(ctx: Ctx) -> None:
@@ -281,6 +845,10 @@ WITNESSES = [
      "old": "results.append((max(data_list, key=lambda t: t[0])[1], public_key))", "new": "results.append((data_list[0][1], public_key))"},
     {"name": "older version replaces newer", "file": DS, "rule": "version-monotone",
      "old": "            if new_value.version >= old_value.version:", "new": "            if new_value.version != old_value.version:"},
+    {"name": "add_value drops the verified version", "file": DC, "rule": "signed-means-verified",
+     "old": "storage.put(key, value, id_=id_, version=version, max_age=max_age)", "new": "storage.put(key, value, id_=id_, version=0, max_age=max_age)"},
+    {"name": "expired entry bypasses the version guard", "file": DS, "rule": "version-monotone",
+     "old": "            if new_value.version >= old_value.version:", "new": "            if old_value.expired or new_value.version >= old_value.version:"},
     {"name": "store-peer under foreign mid", "file": DD, "rule": "store-peer-mid",
      "old": "        if payload.target != peer.mid:\n            self.logger.warning(\"Not allowed to store under key %s, dropping packet.\", hexlify(payload.target))\n            return\n", "new": ""},
     {"name": "store-peer without token", "file": DD, "rule": "store-peer-mid",
